@@ -72,6 +72,25 @@ def op_c01(args):
                         continue
                     seen.add(field)
                     v.violate("field_differs", field, "%s: %s" % (path, detail))
+    # twin compile: the same source under another file name gives code objects that compare
+    # equal (code equality ignores co_filename) but are not the same; decoding one must not
+    # be influenced by having decoded the other
+    if agg["nested"] and cd is not None and "src" in args["case"] and not v.violations:
+        twin = dict(args["case"])
+        twin["filename"] = (twin.get("filename") or "<verif>") + ".twin"
+        try:
+            code2 = compile_case(twin)
+            r2 = CodeData.from_code(code2).to_code()
+            for path, field, detail in refs.ident_diff(code2, r2, nan_bits=True, limit=3):
+                if field == "co_lnotab":
+                    field = _classify_lnotab_diff(code2, r2, path)
+                v.violate("field_differs_after_lookalike", field, "same source compiled under a second file name: %s: %s" % (path, detail))
+                break
+            v.features["twin_compiles"] += 1
+        except Reject:
+            pass
+        except Exception as e:
+            v.violate("from_code_raises", exc_sig(e), "twin compile: " + exc_detail(e))
     v.info["nontrivial"] = bool(agg["nested"] or agg["njump"] or agg["nent"] >= 2)
     return v.result()
 
